@@ -2,6 +2,8 @@ package sim
 
 import (
 	"fmt"
+	"os"
+	"strings"
 	"testing"
 	"testing/cryptotest"
 
@@ -36,8 +38,12 @@ var poolRSA = true
 // same key in every process.
 func InitKeyPool(t *testing.T, withRSA bool) {
 	poolRSA = withRSA
+	only := os.Getenv("DSIM_ALGS")
 	for _, alg := range allAlgs {
 		if alg == "rsa" && !withRSA {
+			continue
+		}
+		if only != "" && !strings.Contains(only, alg) {
 			continue
 		}
 		for k := 0; k < poolSize[alg]; k++ {
@@ -82,6 +88,9 @@ func key(p Principal) *keyEntry {
 // executable after simplification.
 func normPrincipal(p Principal) Principal {
 	n, ok := poolSize[p.Alg]
+	if only := os.Getenv("DSIM_ALGS"); only != "" && !strings.Contains(only, p.Alg) {
+		ok = false
+	}
 	if !ok || (p.Alg == "rsa" && !poolRSA) {
 		p.Alg = "ed25519"
 		n = poolSize["ed25519"]
